@@ -74,6 +74,8 @@ type Contract struct {
 	MaxAlloc   *Clause
 	Allocates  *Clause
 	PanicsOK   bool
+	Variant    string            // alternative contract of the same function: key written as `name@variant`
+	Use        map[string]string // callee full name -> variant this function's proof relies on
 	FrameOnly  bool // only frame (assigns) and contract obligations: a panicking operation ends the execution, its no-panic condition is assumed afterwards
 	Params     []string // optional explicit parameter names for assumed contracts on functions without source names
 	File       string
@@ -149,8 +151,16 @@ var labelRe = regexp.MustCompile(`^\[([A-Za-z0-9_.:\-]+)\]\s*`)
 
 var clauseKW = map[string]bool{"props": true, "requires": true, "ensures": true, "assigns": true, "canary": true,
 	"loop": true, "decreases": true, "nooverflow": true, "assumed": true, "inline": true, "let": true, "panics_ok": true,
-	"params": true, "frame_only": true, "ghost": true, "terminates": true, "bytes": true, "split": true, "uses": true, "after": true, "calls": true,
+	"params": true, "frame_only": true, "use": true, "ghost": true, "terminates": true, "bytes": true, "split": true, "uses": true, "after": true, "calls": true,
 	"maxalloc": true, "allocates": true, "generic": true, "callarg": true}
+
+// FnName: the SSA name of the function the contract is about (the variant suffix removed).
+func (c *Contract) FnName() string {
+	if c.Variant != "" {
+		return strings.TrimSuffix(c.Full, "@"+c.Variant)
+	}
+	return c.Full
+}
 
 func fullName(pkgPath, key string) string {
 	if strings.Contains(key, "/") || pkgPath == "" {
@@ -241,6 +251,9 @@ func (cs *ContractSet) parseContractFile(path, pkgPath string) error {
 				return err
 			}
 			cur = &Contract{Key: rest, PkgPath: pkgPath, Full: fullName(pkgPath, rest), File: path, Line: ln, Loops: map[int]*LoopSpec{}}
+			if i := strings.LastIndex(rest, "@"); i > 0 && !strings.Contains(rest[i:], " ") {
+				cur.Variant = rest[i+1:]
+			}
 			continue
 		case "pred":
 			if err := flush(); err != nil {
@@ -376,6 +389,18 @@ func (c *Contract) addClause(kw, text string, line int) error {
 	case "frame_only":
 		c.FrameOnly = true
 		c.PanicsOK = true
+	case "use":
+		// use <callee>@<variant> : calls of <callee> are checked against that alternative contract
+		for _, f := range strings.Fields(text) {
+			i := strings.LastIndex(f, "@")
+			if i < 0 {
+				return fmt.Errorf("use: want <function>@<variant>")
+			}
+			if c.Use == nil {
+				c.Use = map[string]string{}
+			}
+			c.Use[fullName(c.PkgPath, f[:i])] = f[i+1:]
+		}
 	case "terminates":
 		c.Terminates = true
 	case "bytes":
